@@ -95,8 +95,10 @@ def _worker(args):
 
     d = _P(base) / f"w{os.getpid()}"
     d.mkdir(parents=True, exist_ok=True)
+    # the page's file name carries no metadata: date-shaped and nested names must compile exactly like a neutral one
+    name = ["p.zo", "20240323.zo", "2024/20240322_day.zo", "notes.zo", "240101.zo", "sub/20231231_done.zo"][idx % 6]
     with C.QuietStderr():
-        return idx, impl_compile(d, "p.zo", text, today)
+        return idx, impl_compile(d, name, text, today)
 
 
 def impl_compile_many(base, texts, today, procs=14):
